@@ -183,7 +183,7 @@ def _strip_local(ty, cr):
 def adt_fingerprint(a, cr=None):
     import hashlib
     cr = cr or crates()
-    body = (a.get("kind"), tuple((v.get("name"), v.get("discr"), tuple((f.get("name"), _strip_local(f.get("ty"), cr), f.get("pub"))
+    body = (a.get("kind"), tuple((v.get("name") if a.get("kind") == "enum" else None, v.get("discr"), tuple((f.get("name"), _strip_local(f.get("ty"), cr), f.get("pub"))
                                                                     for f in v.get("fields") or []))
                              for v in a.get("variants") or []))
     return hashlib.sha256(repr(body).encode()).hexdigest()[:24]
@@ -211,9 +211,19 @@ def moved_items(docs, kind):
         if not gone:
             continue
         fresh = [p for p in have if p not in inv]
+        fps = {q: fpf(have[q], cr) for q in fresh}
         for g in gone:
-            cands = [q for q in fresh if q.rsplit("::", 1)[-1] == g.rsplit("::", 1)[-1] and fpf(have[q], cr) == inv[g]]
+            cands = [q for q in fresh if q.rsplit("::", 1)[-1] == g.rsplit("::", 1)[-1] and fps[q] == inv[g]]
             if len(cands) == 1 and cands[0] not in out:
+                out[cands[0]] = g
+        # renamed (not only moved): the definition is unique among the vanished and among the new items
+        left_g = [g for g in gone if g not in out.values()]
+        left_f = [q for q in fresh if q not in out]
+        for g in left_g:
+            if sum(1 for h in left_g if inv[h] == inv[g]) != 1:
+                continue
+            cands = [q for q in left_f if fps[q] == inv[g]]
+            if len(cands) == 1:
                 out[cands[0]] = g
     return out
 
@@ -244,10 +254,13 @@ def canonicalise(docs):
     import re
     total = {}
     # 1. types: every path that goes through the type (its methods, its trait impls, type strings) moves with it
-    mp = moved_items(docs, "adts")
-    if mp:
+    for _ in range(4):      # a renamed type changes the definition of the types that contain it: repeat until stable
+        mp = moved_items(docs, "adts")
+        mp = {k: v for k, v in mp.items() if k not in total}
+        if not mp:
+            break
         rx = re.compile("(?:%s)(?![A-Za-z0-9_])" % "|".join(re.escape(k) for k in sorted(mp, key=len, reverse=True)))
-        _rewrite(docs, lambda s: rx.sub(lambda m: mp[m.group(0)], s))
+        _rewrite(docs, lambda s, rx=rx, mp=mp: rx.sub(lambda m: mp[m.group(0)], s))
         total.update(mp)
     # 2. constants and statics
     mc = moved_items(docs, "consts")
